@@ -9,6 +9,7 @@ def run(ctx, rep):
     hashorder.rule_parallel_tables(ctx, rep, "C15-R1c", only_if_hash_ordered=True)
     hashorder.rule_no_slot_numbers_in_messages(ctx, rep, "C15-R1d")
     hashorder.rule_no_pick_from_set(ctx, rep, "C15-R1e")
+    hashorder.rule_no_sequence_from_set(ctx, rep, "C15-R1f")
     isolation.rule_no_identity_in_messages(ctx, rep, "C15-R2")
     isolation.rule_clock_rng_allowlist(ctx, rep, "C15-R3")
     isolation.rule_no_shared_state(ctx, rep, "C15-R4")
